@@ -23,9 +23,9 @@ def unarySv : Op → Bool
   | .unchecked .. => false
   | op => (isBinary op).isNone
 
-theorem step1_refines {cap : Nat} (op : Op) (d : V) (hc : cap < 2 ^ 64) (hcap : d.length ≤ cap)
+theorem step1_refines {cap : Nat} (kind : Kind) (op : Op) (d : V) (hc : cap < 2 ^ 64) (hcap : d.length ≤ cap)
     (hu : unarySv op = true) (hv : valid1 cap op d = true) :
-    step1 cap op d = .ok (Spec.apply1 cap op d) ∧ (Spec.apply1 cap op d).1.length ≤ cap := by
+    step1 cap kind op d = .ok (Spec.apply1 cap op d) ∧ (Spec.apply1 cap op d).1.length ≤ cap := by
   cases op with
   | push ov x =>
     simp only [valid1, decide_eq_true_eq] at hv
@@ -85,11 +85,11 @@ theorem step1_refines {cap : Nat} (op : Op) (d : V) (hc : cap < 2 ^ 64) (hcap : 
     simp only [valid1, decide_eq_true_eq] at hv
     exact ⟨by simp [step1, Spec.apply1, ctorRange_eq xs hc hv], by simp [Spec.apply1]; omega⟩
   | eraseVal x =>
-    refine ⟨by simp [step1, Spec.apply1, eraseIf_eq d _ hc hcap], ?_⟩
+    refine ⟨by simp [step1, Spec.apply1, eraseIf_eq kind d _ hc hcap], ?_⟩
     simp only [Spec.apply1]
     exact Nat.le_trans (List.length_filter_le _ _) hcap
   | eraseIf m r =>
-    refine ⟨by simp [step1, Spec.apply1, eraseIf_eq d _ hc hcap], ?_⟩
+    refine ⟨by simp [step1, Spec.apply1, eraseIf_eq kind d _ hc hcap], ?_⟩
     simp only [Spec.apply1]
     exact Nat.le_trans (List.length_filter_le _ _) hcap
   | dump => exact ⟨by simp [step1, Spec.apply1], by simpa [Spec.apply1] using hcap⟩
